@@ -29,7 +29,7 @@ Proof.
   - guarded_tac.
 Qed.
 Lemma ex_valid : valid (with_bin (derive_cmd PostEx.d) (hd [] argv)) = true. Proof. vm_compute. reflexivity. Qed.
-Lemma ex_command_accepts : exists m, cmd_parse (derive_cmd PostEx.d) (d_nodes PostEx.d) argv = OOk m.
+Lemma ex_command_accepts : exists m, parse_top (derive_cmd PostEx.d) argv = OOk m.
 Proof. eexists. vm_compute. reflexivity. Qed.
 (** by the theorem: the derived parser succeeds ... *)
 Theorem ex_parses : exists vs, derived_parse PostEx.d argv = PValue vs.
